@@ -72,7 +72,7 @@ AVOID = ["nn_softmax"]  # shapes of known findings excluded from the search phas
 
 def generate(seed: int, tier: str, phase: str) -> Dict[str, Any]:
     r = core.rng(seed, "workload")
-    plan: Dict[str, Any] = {"phase": phase, "timeout": 300, "shrink_budget": 60, "key": r.randrange(1 << 30)}
+    plan: Dict[str, Any] = {"phase": phase, "timeout": 300, "shrink_budget": 320, "key": r.randrange(1 << 30)}
     if phase == "known":
         plan["progs"] = []
         if r.random() < 0.6:
@@ -164,7 +164,7 @@ def execute(plan: Dict[str, Any]) -> Dict[str, Any]:
         else:
             worlds: List[Dict[str, Any]] = []
             for p in plan["progs"]:
-                spec = proggen.generate(random.Random(p["pseed"]), p["opts"])
+                spec = p.get("spec") or proggen.generate(random.Random(p["pseed"]), p["opts"])
                 orig = programs.ProgModule(spec)
                 rep = {h: t for h, t in plan["replace"].items()
                        if h in spec.get("helpers_used", []) or (
@@ -400,7 +400,19 @@ def simplify(plan: Dict[str, Any]) -> Iterable[Dict[str, Any]]:
             c = copy.deepcopy(plan)
             del c["progs"][j]
             yield c
+    import random
+
+    from models import proggen, shrinkspec
+
     for j, p in enumerate(plan["progs"]):
+        base = p.get("spec") or proggen.generate(random.Random(p["pseed"]), p["opts"])
+        for cand in shrinkspec.candidates(base):
+            c = copy.deepcopy(plan)
+            c["progs"][j]["spec"] = cand
+            yield c
+    for j, p in enumerate(plan["progs"]):
+        if p.get("spec"):
+            continue
         lo, hi = p["opts"]["depth"]
         for new_hi in (1, 2, 4):
             if new_hi < hi:
